@@ -280,7 +280,8 @@ package stanza
 // ---------------------------------------------------------------------------
 // C16 / C03: stream opening
 //@ pred isOpen(t) := isSE(t, NSStream, "stream") || isSE(t, NSFraming, "open")
-//@ pred idOf(attrs, id) := (forall(k, 0, len(attrs), attrs[k].Name.Local != "id") && id == "") || exists(k, 0, len(attrs), attrs[k].Name.Local == "id" && id == attrs[k].Value && forall(j, k + 1, len(attrs), attrs[j].Name.Local != "id"))
+//@ pred isIdAttr(a) := a.Name.Local == "id" && a.Name.Space == ""
+//@ pred idOf(attrs, id) := (forall(k, 0, len(attrs), !isIdAttr(attrs[k])) && id == "") || exists(k, 0, len(attrs), isIdAttr(attrs[k]) && id == attrs[k].Value && forall(j, k + 1, len(attrs), !isIdAttr(attrs[j])))
 //@ func stanza.InitStream(p) (sessionID, err)
 //@   requires p != nil
 //@   ensures [C16.initstream.open] err == nil ==> count(TokenRead) > old(count(TokenRead)) && isOpen(last(TokenRead)) && idOf(last(TokenRead).(xml.StartElement).Attr, sessionID)
